@@ -24,6 +24,9 @@ CHECKS["C04"] = ("fault_enumeration", "exhaustive close-position / single-fault 
 CHECKS["C18"] = ("fault_enumeration", "exhaustive cancellation-point enumeration per generated operation on a hand-driven event loop",
   "For each generated operation (all tools/aggregations with suspending sources and callables, tee+lock, lru_cache, cached_property+lock, ExitStack, scoped_iter blocks) a Cancel object is thrown at EVERY suspension point 1..N in separate runs; that object must propagate, sources be released, locks free and balanced, exits run once with it, caches consistent and usable.",
   "one cancellation per run; cleanup itself does not suspend; suspension points are those of user awaitables (C17 shows there are no others)", "4/C18")
+CHECKS["C20"] = ("exploration", "weak-reference retention PBT over long lazily generated streams",
+  "For every streaming tool and single-pass aggregation, groupby and tee (with generated child lag / early close patterns) the number of live source items, counted through weak references at every 10th consumer step, stays below window + 3*sources + 3 for stream lengths 50-400 (thorough: to 2000): the bound is independent of the length.",
+  "CPython reference counting + gc.collect(); documented accumulators excluded", "4/C20")
 REASONS = {}
 props = [json.loads(l)["id"] for l in open(os.path.join(HERE, "properties.jsonl"))]
 checks = []
